@@ -213,6 +213,9 @@ let live_blocks (s : state) =
 
 (* ------------------------------------------------------------------- run *)
 let clear_log (s : state) = { s with log = [] }
+(* the leak events are ghost state of the invariant: keep them across calls *)
+let clear_log_keep_leaks (s : state) =
+  { s with log = List.filter (function EvLeak _ -> true | _ -> false) s.log }
 
 let run_history_line (line : string) =
   match String.split_on_char '|' line with
@@ -240,6 +243,69 @@ let run_history_line (line : string) =
       Printf.printf "F live=%d\n" (live_blocks final);
       Printf.printf "E %s\n" id
   | _ -> raise (Parse ("history " ^ line))
+
+(* ------------------------------------------------------------ invariant *)
+(* step-level run of one history: the executable mirror [invb] of the proved
+   invariant is evaluated on every configuration, as long as the per-step
+   hypotheses [step_ok] hold *)
+let inv_configs = ref 0 and inv_hist = ref 0 and inv_cut = ref 0 and inv_bad = ref 0
+
+let run_inv_line (line : string) =
+  match String.split_on_char '|' line with
+  | [id; _mode; body] ->
+      let ops = String.split_on_char ';' body |> List.map String.trim
+                |> List.filter (fun x -> x <> "") in
+      incr inv_hist;
+      let check idx n (s : state) k =
+        incr inv_configs;
+        let v = int_of_nat (invb s k) in
+        if v <> 0 then begin
+          incr inv_bad;
+          Printf.printf "INV %s op=%d step=%d clause=%d\n" id idx n v; false end
+        else true in
+      let rec steps idx n pri (c : config) : state option =
+        if not (check idx n c.st c.stack) then None
+        else match c.stack with
+          | [] -> if c.unw then Some c.st else Some c.st
+          | _ ->
+            if not (step_ok c) then (incr inv_cut; None)
+            else match step pri c with
+              | Running c' -> if n > 200000 then None else steps idx (n + 1) pri c'
+              | Finished (s, _) -> Some s
+              | Halted (_, h) ->
+                  (match h with
+                   | HAbort -> ()
+                   | HFault _ -> incr inv_bad; Printf.printf "INV %s op=%d step=%d fault=%s\n" id idx n (str_halt h));
+                  None in
+      let rec go idx s = function
+        | [] -> ()
+        | o :: rest ->
+            let (op, pri) = parse_op o in
+            let s = clear_log_keep_leaks s in
+            let first = match op with
+              | OAct a -> exec_act s None a
+              | ONewS (d, sc) -> exec_new s None d sc in
+            (match first with
+             | AHalt HAbort -> ()
+             | AHalt h -> incr inv_bad; Printf.printf "INV %s op=%d first fault=%s\n" id idx (str_halt h)
+             | APanicOut -> go (idx + 1) s rest
+             | AO (s1, _, _, push) ->
+                 (match steps idx 0 pri { st = s1; stack = push; unw = false } with
+                  | Some s2 -> go (idx + 1) s2 rest
+                  | None -> ()))
+      in
+      if check 0 (-1) init_state [] then go 0 init_state ops
+  | _ -> raise (Parse ("history " ^ line))
+
+let run_inv () =
+  (try
+    while true do
+      let line = input_line stdin in
+      if String.trim line <> "" && line.[0] <> '#' then run_inv_line line
+    done
+  with End_of_file -> ());
+  Printf.printf "INVSUMMARY histories=%d configs=%d cut_by_hypothesis=%d violations=%d\n"
+    !inv_hist !inv_configs !inv_cut !inv_bad
 
 let run_all () =
   try
@@ -550,6 +616,7 @@ let gen seed count profile len =
 let () =
   match Array.to_list Sys.argv with
   | [_; "run"] -> run_all ()
+  | [_; "inv"] -> run_inv ()
   | [_; "bfs"; d; nobj; nreg; nslot; profile] ->
       bfs (int_of_string d) (int_of_string nobj) (int_of_string nreg) (int_of_string nslot) profile
   | [_; "gen"; seed; count; profile; len] ->
